@@ -438,17 +438,24 @@ theorem addPair_ok {maxpair : Nat} {b1 b2 : Fin M.nbody} {acc r : List (Fin M.nb
     (h : addPair M maxpair b1 b2 acc = .ok r) :
     r = if orCompat M b1 b2 then acc ++ [ordPair M b1 b2] else acc := by
   unfold addPair at h
-  split at h
-  · simp only at h
-    unfold orCompat ordPair
-    split at h
-    · rename_i hc
-      rw [if_neg (not_not.mpr hc)]
+  by_cases hlen : acc.length < maxpair
+  · rw [if_pos hlen] at h
+    dsimp only at h
+    by_cases hc : orCompat M b1 b2
+    · rw [if_pos hc]
+      have hc' : ¬ (intLand (geomOr M b1).1 (geomOr M b2).2 = 0 ∧ intLand (geomOr M b2).1 (geomOr M b1).2 = 0) := hc
+      rw [if_neg hc'] at h
+      unfold ordPair
+      by_cases hlt : b1.val < b2.val
+      · rw [if_pos hlt] at h ⊢; exact (Except.ok.inj h).symm
+      · rw [if_neg hlt] at h ⊢; exact (Except.ok.inj h).symm
+    · rw [if_neg hc]
+      have hc' : (intLand (geomOr M b1).1 (geomOr M b2).2 = 0 ∧ intLand (geomOr M b2).1 (geomOr M b1).2 = 0) :=
+        not_not.mp hc
+      rw [if_pos hc'] at h
       exact (Except.ok.inj h).symm
-    · rename_i hc
-      rw [if_pos hc]
-      split at h <;> rename_i hlt <;> simp only [hlt, ↓reduceIte] <;> exact (Except.ok.inj h).symm
-  · cases h
+  · rw [if_neg hlen] at h
+    cases h
 
 theorem addPairs_ok {maxpair : Nat} : ∀ (l acc r : List (Fin M.nbody × Fin M.nbody)),
     addPairs M maxpair l acc = .ok r →
@@ -523,7 +530,7 @@ theorem mem_broadphase {boxes : List (Box (Fin M.nbody) Float32 Float)} {maxpair
       · rw [if_pos hn, if_pos hn]
         by_cases hneg : (mjSAP sapCmp32 (fun (a b : Float) => a > b) boxes
               ((((bfid M).length * ((bfid M).length - 1)) / 2 : Nat) : Int)).1 < 0
-        · rw [if_pos hneg] at h
+        · rw [if_pos hn, if_pos hneg] at h
           cases h
         · rw [if_neg hneg]
           exact ⟨_, rfl, rfl⟩
